@@ -17,7 +17,12 @@ type instruction struct {
 	Pos     pos
 }
 
-func joinParams(a, b reg) reg      { return (((a + 32768) & 0xffff) << 16) | ((b + 32768) & 0xffff) }
+func joinParams(a, b reg) reg {
+	if a < -32768 || a > 32767 || b < -32768 || b > 32767 { // (slot numbers of a range loop, the counts of a call)
+		panic("too many locals, arguments or results for one instruction")
+	}
+	return (((a + 32768) & 0xffff) << 16) | ((b + 32768) & 0xffff)
+}
 func splitParams(v reg) (reg, reg) { return ((v >> 16) & 0xffff) - 32768, (v & 0xffff) - 32768 }
 
 // func joinParams(a, b Reg) Reg      { return ((a & 0xff) << 8) | (b & 0xff) }
